@@ -83,11 +83,12 @@ CLAIMS = {
              'offset, count-recovery order. Not decided: equality of the two views on concrete images. Trusted: glibc elf.h.'),
     'C10': dict(
         technique='whole-package stream-cursor typestate with effect summaries, yield rule and public-entry preconditions + cache '
-                  'discipline rules (paired arrays, bisect guards, memo-key completeness, who-writes, lazy-body purity)',
+                  'discipline rules (paired arrays, bisect guards, memo-key completeness incl. one producer per key and shared memos, who-writes, '
+                  'lazy-body purity, partial-container rule: nothing filled between yields is served, incremental caches read by key only)',
         level=LEVEL,
         note='Decides the two structural conditions that make history matter: every relative stream use follows a positioning of the '
              'same activation (or a cooperative callee), no generator resumes into a relative use, protected nested parses stay under '
-             'preserve_stream_pos; caches are transparent (J rules). Histories themselves are NOT explored (a bounded exploration is a '
+             'preserve_stream_pos; caches are transparent (J rules, incl. J-PARTIAL: no container on an object is observable half-filled). Histories themselves are NOT explored (a bounded exploration is a '
              'model-checking/runtime technique). Known finding: define_file entries appended to the header during lazy decoding. '
              'Trusted: receiver hints, two named cursor exceptions, the designated-writer tables in props/C10.py.'),
     'C12': dict(
@@ -119,19 +120,22 @@ CLAIMS = {
              'start, derived field names exist, names via the linked string table, get_version conditions, versym addressing, link '
              'validation. Not decided: resolved values on concrete sections. Trusted: glibc elf.h.'),
     'C16': dict(
-        technique='literal-level check of the integer macros + structural loop summaries of the LEB128 decoders + boundary decision '
-                  'table of the initial-length adapter + class-table check of error wrapping',
+        technique='literal-level check of the integer macros + path values of FormatField._parse + structural loop summaries of the LEB128 decoders + '
+                  'boundary decision table of the initial-length adapter + class-table check of error wrapping + overwritten-accumulator '
+                  'contradiction rule + one-definition rule for the primitive decoders',
         level=LEVEL,
         note='Decides: width/sign/byte order of the 24 integer macros, exact-length read with FieldError on short input, 24-bit '
              'recombination, LEB128 loop (one byte per iteration, 7-bit payload, shift 7, continuation on the consumed byte, sign bit 6, '
              'immediate return), initial-length classes, repeat/prefixed/cstring structure, ConstructError->ELFParseError wrapping. '
              'Not decided: decoded values of concrete encodings. Trusted: CPython struct, construct core.'),
     'C17': dict(
-        technique='constant folding of table modules + exhaustive comparison with vendored registries',
+        technique='constant folding of table modules + exhaustive comparison with vendored registries + table-selection rules per (machine, OS ABI) '
+                  'configuration through the layout interpreter',
         level=LEVEL,
         note='Decides every (name,value) whose name glibc elf.h or LLVM BinaryFormat defines; names defined by neither '
              'registry are listed as unverifiable, names on which the registries disagree accept either value, *_NUM '
-             'counts are volatile. Trusted: the vendored registry files.'),
+             'counts are volatile; which table a file of a given machine and OS ABI gets for sh_type, p_type and d_tag (processor names kept under every OS ABI, '
+             'dynamic tags = common + processor + OS); inverse maps report the registry name. Trusted: the vendored registry files.'),
 }
 
 CLAIMS['C11'] = dict(
@@ -148,12 +152,13 @@ CLAIMS['C11'] = dict(
 CLAIMS['C20'] = dict(
     technique='walk assignment normal forms (I-REL) + cursor typestate with yield rule + dispatch extraction of per-tag value kinds + '
               'path-condition decision tree of the index entries + sign-extension consistency + evaluated byte-code ring '
-              '(totality/partition over all 256 bytes, per-handler consumption, ULEB loop summary)',
+              '(totality/partition over all 256 bytes, per-handler consumption, ULEB loop summary) + register-list masks constant-folded over all '
+              'operand bytes vs IHI 0038 Table 4',
     level=LEVEL,
     note='Decides: attribute walks advance from the current element with explicit positions, subsection header and tag layouts, '
          'value kind per tag vs the ARM/RISC-V tag tables, index entry stride/places/decision tree/byte extraction, prel31 sign bit '
          'and extension, ring totality + first-match partition vs IHI 0038 Table 4 + consumption + ULEB operand loop. Not decided: '
-         'mnemonic text, attribute values. Trusted: IHI 0038/0045 rows in props/C20.py.')
+         'mnemonic text other than the register lists of the nine register-range byte-codes, attribute values. Trusted: IHI 0038/0045 rows in props/C20.py.')
 
 CLAIMS['C19'] = dict(
     technique='exception-escape analysis over the resolved constructor call graph (raise types vs the exception class table, assert '
@@ -171,8 +176,10 @@ CLAIMS['C19'] = dict(
 
 NOT_YET = 'rules for this property are not built yet in this session (claimed once its check exists)'
 NOT_APPLICABLE = {
-    'C18': 'output equality with GNU readelf: the oracle binary is emptied in this sandbox, formatted text is a runtime '
-           'value, and no structural clause can be armed without GNU readelf\'s own tables (DESIGN.md §5)',
+    'C18': 'output equality with GNU readelf over a corpus: formatted text is a runtime value of two programs; deciding it means '
+           'running both and comparing (a differential test, not this family). The project\'s pinned oracle test/external_tools/readelf '
+           'is emptied here; a system GNU readelf 2.40 exists, but using it would be exactly the runtime test the brief excludes, and no '
+           'structural clause can be armed without GNU readelf\'s own description tables as a reference (DESIGN.md §5)',
 }
 for _p in ['C02', 'C03', 'C04', 'C05', 'C06', 'C07', 'C08', 'C09', 'C10', 'C11', 'C12', 'C13', 'C14', 'C15', 'C16', 'C19', 'C20']:
     if _p not in CLAIMS:
